@@ -1,6 +1,8 @@
 /-
 Every KMIP error the engine model answers carries a Result Reason that fits an Enumeration (32 bits): the reasons
 are the constants of `Rsn` or the reason the cryptography backend raised (`cryptoReq`).
+`RB x` is proved structurally (tactic `rb`) for every function on the way from `processOperation` down; the file is
+continued in `RangeReasons2` … `RangeReasons5` (`processOperation_reason`) to keep each build short.
 -/
 import KmipModel.Lemmas.RangeInv
 namespace Kmip.Encode
